@@ -48,6 +48,11 @@ def explorations(tier):
                    with_(EC([4], [2], ["default"], only_join=True, variants=False), bc=True), {"preempt": 1}))
         ex.append(("api outputs n=3: W=1 every pop order", PLAN, api_cfgs(3, [(1, "random")]), {"preempt": 0}))
         ex.append(("api outputs n=3: W=2 default b<=1", PLAN, api_cfgs(3, [(2, "default")], kinds=("p", "d")), {"preempt": 1}))
+        # a run that returns normally must have executed everything the output needs - also when calls raise
+        # (Exception / BaseException / SystemExit): it may only *return* if nothing needed was skipped
+        from .c06 import api_fail_cfgs, engine_fail_cfgs
+        ex.append(("engine G3 x fault patterns, W=2..3, b<=1", ENGINE, engine_fail_cfgs([3], [2, 3], ["default"], max_errors=(0, None)), {"preempt": 1}))
+        ex.append(("api plans n=3 x fault patterns, W=2, b<=1", PLAN, api_fail_cfgs(3, [(2, "default")], kinds=("p", "d"), max_errors=(0, None)), {"preempt": 1}))
     else:
         ex.append(("engine G3/G4 W=1 sync b<=2, all random draws", ENGINE, EC([3, 4], [1], scheds), {"preempt": 2}))
         ex.append(("engine G3 W=2 sync b<=3", ENGINE, EC([3], [2], det), {"preempt": 3}))
@@ -60,6 +65,9 @@ def explorations(tier):
         ex.append(("api outputs n=3: W=1 every pop order, W=2 b<=2", PLAN,
                    api_cfgs(3, [(1, "random"), (2, "default"), (2, "random")], kinds=planh.EDGE_KINDS), {"preempt": 2, "random": 2}))
         ex.append(("api outputs n=4: W=1 every pop order", PLAN, api_cfgs(4, [(1, "random")], kinds=("p", "d")), {"preempt": 0}))
+        from .c06 import api_fail_cfgs, engine_fail_cfgs
+        ex.append(("engine G3 x fault patterns, W=2..3, b<=2", ENGINE, engine_fail_cfgs([3], [2, 3], ["default", "random"], max_errors=(0, 1, None)), {"preempt": 2, "random": 1}))
+        ex.append(("api plans n=3 x fault patterns, W=2, b<=2", PLAN, api_fail_cfgs(3, [(2, "default"), (2, "random")], kinds=("p", "d", "l"), max_errors=(0, None)), {"preempt": 2, "random": 1}))
     return ex
 
 
